@@ -50,6 +50,16 @@ private:
     const Scalar m_sigmar;
     const Scalar m_sigmai;
 
+    // Restores the shift (sigmar, sigmai) of the operator when leaving a scope,
+    // so that the user's operator is left as it was given to the solver
+    struct ShiftRestorer
+    {
+        OpType& op;
+        const Scalar& sigmar;
+        const Scalar& sigmai;
+        ~ShiftRestorer() { op.set_shift(sigmar, sigmai); }
+    };
+
     // First transform back the Ritz values, and then sort
     void sort_ritzpair(SortRule sort_rule) override
     {
@@ -79,6 +89,7 @@ private:
         SimpleRandom<Scalar> rng(0);
         const Scalar shiftr = rng.random() * m_sigmar + rng.random();
         const Complex shift = Complex(shiftr, Scalar(0));
+        ShiftRestorer restorer{m_op, m_sigmar, m_sigmai};
         m_op.set_shift(shiftr, Scalar(0));
 
         // Calculate inv(A - r * I) * vj
